@@ -28,7 +28,7 @@ inductive Val where
   | arr (xs : List Val)
   | ptr (c : Nat)                -- *ObjectPtr: boxed cell
   | native (k : Nat)             -- callable that is not a compiled function
-  | opaque (tag : Nat)           -- any other value
+  | other (tag : Nat)            -- any other value
   deriving Repr, Inhabited
 
 structure Fn where
@@ -167,7 +167,7 @@ def dispatch (cfg : Cfg) (s : State) (cur : Frame) (id : Nat) (callee : Fn) (num
 
 /-- A non-compiled callee: arguments and callee are replaced by one result. -/
 def nativeCall (s : State) (k numArgs ip : Nat) : Outcome :=
-  .ok { s with stack := s.stack.set (s.sp - (numArgs + 1)) (.opaque k), sp := s.sp - (numArgs + 1) + 1, pc := ip + 1 }
+  .ok { s with stack := s.stack.set (s.sp - (numArgs + 1)) (.other k), sp := s.sp - (numArgs + 1) + 1, pc := ip + 1 }
 
 def callStep (cfg : Cfg) (s : State) : Outcome :=
   match s.curFrame? with
@@ -273,7 +273,7 @@ mutual
     | .fn _, _ => none | _, .fn _ => none
     | .ptr _, _ => none | _, .ptr _ => none
     | .native _, _ => none | _, .native _ => none
-    | .opaque _, _ => none | _, .opaque _ => none
+    | .other _, _ => none | _, .other _ => none
     | _, _ => some false
   def valsEq : List Val → List Val → Option Bool
     | [], [] => some true
@@ -290,6 +290,7 @@ def binop (tok : Nat) : Val → Val → Option Val
     if tok = 11 then some (.int (wrap64 (a + b)))
     else if tok = 12 then some (.int (wrap64 (a - b)))
     else if tok = 13 then some (.int (wrap64 (a * b)))
+    else if tok = 15 then (if b = 0 then none else some (.int (Int.tmod a b)))
     else if tok = 38 then some (.bool (a < b))
     else if tok = 39 then some (.bool (a > b))
     else if tok = 43 then some (.bool (a ≤ b))
@@ -339,7 +340,7 @@ def otherEffect (cfg : Cfg) (s : State) (cur : Frame) (op : Nat) : EffResult :=
     | none => .goPanic
     | some k => match cfg.consts[k]? with
       | none => .goPanic
-      | some (.opaque _) => .unsupported
+      | some (.other _) => .unsupported
       | some v => pushVal s v (s.pc + 3)
   else if op = opNull then pushVal s .undef (s.pc + 1)
   else if op = opTrue then pushVal s (.bool true) (s.pc + 1)
@@ -477,6 +478,32 @@ def initState (cfg : Cfg) (stackSize numGlobals : Nat) : State :=
     pc := 0
     cells := []
     globals := List.replicate numGlobals .undef }
+
+
+/-! ### What the compiler emits after a self call, per syntactic context
+
+(form of the harness generator, opcodes that follow the CALL, does the VM reuse the frame). The harness
+compares the opcodes the real compiler emits and the frame behaviour the real VM shows with this table;
+`Props/C16.lean` proves the last column equal to `tailPattern` on the listed opcodes. -/
+def contextTable : List (String × List Nat × Bool) := [
+  ("return",          [opReturn],        true),
+  ("and",             [opReturn],        true),
+  ("or",              [opReturn],        true),
+  ("and-merged",      [opReturn],        true),
+  ("or-merged",       [opReturn],        true),
+  ("ternary-false",   [opReturn],        true),
+  ("if-else",         [opReturn],        true),
+  ("paren",           [opReturn],        true),
+  ("in-loop",         [opReturn],        true),
+  ("forin",           [opReturn],        true),
+  ("spread",          [opReturn],        true),
+  ("stmt",            [opPop, opReturn], true),
+  ("stmt-in-if",      [opPop, opReturn], true),
+  ("plus",            [opBinaryOp],      false),
+  ("assign",          [opDefineLocal],   false),
+  ("arg",             [opCall],          false),
+  ("ternary-true",    [opJump],          false),
+  ("stmt-then-more",  [opPop, opGetGlobal], false)]
 
 /-! ### Expected shape of the source (compared with `Tengo.Gen.TailCallShape` in `Props/C16.lean`)
 
